@@ -366,8 +366,19 @@ pub const MESSAGE_GENERATORS: &[(&str, MsgGen)] = &[
     ("BlockRequest", |c| {
         let from = c.u64();
         let span = c.u64();
-        // half of the requests are ordered ranges, so that the request limits are exercised
-        let to = if c.flag() { from.saturating_add(span % 2048) } else { span };
+        // half of the requests are ordered ranges, so that the request limits are exercised; one
+        // in eight is a range touching the ends of the u64 domain (the block count of 0..=MAX does
+        // not fit in a u64)
+        let (from, to) = match span % 8 {
+            0 => match (span >> 3) % 4 {
+                0 => (0, u64::MAX),
+                1 => (0, u64::MAX - 1),
+                2 => (1, u64::MAX),
+                _ => (u64::MAX - (from % 2048), u64::MAX),
+            },
+            _ if c.flag() => (from, from.saturating_add(span % 2048)),
+            _ => (from, span),
+        };
         Message::BlockRequest(BlockRequest { from_height: from, to_height: to, requester_id: c.string() })
     }),
     ("BlockResponse", |c| {
